@@ -43,6 +43,8 @@ Proof.
         exact (exec_offer_lazy c w st a v None depth vid idx r Hwf HW Hfuse Hadm Hr').
       * destruct a; [|discriminate]. cbn [admissible] in Hadm. cbn [exec].
         exact (exec_offer_temp c w st v None vid k idx r Hwf HW Hfuse Hadm Hr).
+      * destruct a; [|discriminate]. cbn [admissible] in Hadm. cbn [exec].
+        exact (exec_offer_userlazy c w st v None depth r Hwf HW Hfuse Hadm Hr).
   - (* OInsert *)
     destruct (fresh_src s) eqn:Hs.
     + cbn [admissible] in Hadm. exact (exec_offer c w st a v s (Some idx) Hwf HW Hfuse Hs Hadm r Hr).
@@ -54,6 +56,8 @@ Proof.
         exact (exec_offer_lazy c w st a v (Some idx) depth vid idx0 r Hwf HW Hfuse Hadm Hr').
       * destruct a; [|discriminate]. cbn [admissible] in Hadm. cbn [exec].
         exact (exec_offer_temp c w st v (Some idx) vid k idx0 r Hwf HW Hfuse Hadm Hr).
+      * destruct a; [|discriminate]. cbn [admissible] in Hadm. cbn [exec].
+        exact (exec_offer_userlazy c w st v (Some idx) depth r Hwf HW Hfuse Hadm Hr).
   - (* OPop *)
     cbn [admissible] in Hadm.
     exact (exec_take c w st a v TPop 0 k r Hwf HW Hfuse (fun _ => eq_refl) Hadm Hr).
@@ -250,7 +254,8 @@ Proof.
          [destruct a; [|discriminate]; apply sp_offer_wrong_nx in H; exact H
          |destruct a; [|discriminate]; apply sp_offer_wrong_nx in H; exact H
          |destruct a; apply sp_offer_lazy_nx in H; exact H
-         |destruct a; [|discriminate]; apply sp_offer_temp_nx in H; exact H]);
+         |destruct a; [|discriminate]; apply sp_offer_temp_nx in H; exact H
+         |destruct a; [|discriminate]; unfold sp_offer_userlazy in H; cbv zeta in H; crush H; cbn; split; lia]);
     try (destruct (resizable bk); [apply sp_new_nx in H; exact H|discriminate]);
     try (destruct (sp_take c st nx v k (match k with TPop => 0 | _ => idx end) KDrop) as [r0|] eqn:E0; [|discriminate];
          apply sp_take_nx in E0; injection H as <-; destruct (s_out r0 =? 0); cbn [s_nx s_out]; lia);
@@ -572,7 +577,9 @@ Definition ex_ops : list op :=
     OPush Erased 10 (STemp 9 TPop 0); OPush Erased 8 (STemp 10 TRemove 1);
     (* the handle is used before it is consumed: written through, lazily cloned and downcast *)
     ORemove Erased 10 0 (KMut KDown); OPop Erased 10 (KMut (KMut (KPush 9))); OPop Erased 9 (KLazyDown 2 (KMut KForget));
-    OPop Erased 8 (KLazyDown 1 (KPush 9)) ].
+    OPop Erased 8 (KLazyDown 1 (KPush 9));
+    (* a lazy clone of a value the caller owns *)
+    OPush Erased 9 (SLazyUser 1); OInsert Erased 9 0 (SLazyUser 3); OInsert Erased 9 9 (SLazyUser 2) ].
 
 Example ex_spec_defined : exists rs, spec_run ex_cfg [] 1 ex_ops = Some rs /\ length rs = length ex_ops.
 Proof. eexists. split; [vm_compute; reflexivity|reflexivity]. Qed.
@@ -600,7 +607,8 @@ Example ex_outcomes :
      (0,0,[]); (0,0,[]); (0,0,[]); (0,0,[4; 1; 41; 2; 41; 1; 42; 0]);
      (0,0,[]); (0,0,[]); (2,1,[]); (2,1,[]); (2,3,[]);
      (0,0,[]); (0,0,[]); (2,1,[]); (2,1,[]); (2,3,[]);
-     (0,0,[45; 46]); (0,0,[44; 47]); (0,0,[49; 50; 48]); (0,0,[52])].
+     (0,0,[45; 46]); (0,0,[44; 47]); (0,0,[49; 50; 48]); (0,0,[52]);
+     (0,0,[]); (0,0,[]); (2,1,[])].
 Proof. vm_compute. reflexivity. Qed.
 
 (** ** Corollaries in the vocabulary of the properties *)
